@@ -15,7 +15,8 @@
     an `order : List Req` (any permutation of the request multiset);
   * the atomic returns the running sum (`off`), the counter ends at Σk whatever the guards decide;
   * a request is GRANTED iff `guard off k C` — the guard is a PARAMETER so that the model can be
-    instantiated with the exact predicate a kernel uses (`idealGuard`, `geGuard`, `geMinusGuard` below);
+    instantiated with the exact predicate a kernel uses (`idealGuard`: connect/weld, `geGuard`: the k = 1 builders;
+    `geMinusGuard`: the pre-repair connect/weld guard, kept as a counter-example);
   * the report `r final C` is a parameter as well (`idealReport` = what `_next_time` computes).
   * a block that is granted row by row (`_efc_contact_init`: rows `off+i < C` are kept) is `k` unit
     requests that happen to be adjacent (`Req.units`).
@@ -86,7 +87,8 @@ def noGuard : Guard := fun _ _ _ => true
 
 /-- `if off >= C: return` — the guard of the k = 1 builders, of `write_contact` and `_add_geom_pair` -/
 def geGuard : Guard := fun off _ C => !(decide (off ≥ C))
-/-- `if off >= C - k: return` — the guard of `_equality_connect` (k = 3) and `_equality_weld` (k = 6) -/
+/-- `if off >= C - k: return` — HISTORICAL: the guard `_equality_connect` (k = 3) and `_equality_weld` (k = 6) used
+    before the repair (now `if off + k > C: return` = `idealGuard`); kept to document that it drops the exact fit -/
 def geMinusGuard : Guard := fun off k C => !(decide (off ≥ C - (k : Int)))
 
 /-- a block of `k` slots requested by task `id`, seen as `k` adjacent unit requests
@@ -101,7 +103,7 @@ def ex3 : List Req := [⟨0, 3⟩, ⟨1, 1⟩, ⟨2, 6⟩]
 #eval run idealGuard 9 ex3           -- the last one is dropped …
 #eval reported idealReport 9 ex3     -- … and reported
 #eval run idealGuard 9 ex3.reverse   -- other order: another one is dropped, same report
-#eval run geMinusGuard 3 [⟨0, 3⟩]    -- connect guard at exact fit: dropped
+#eval run geMinusGuard 3 [⟨0, 3⟩]    -- pre-repair connect guard at exact fit: dropped
 #eval reported idealReport 3 [⟨0, 3⟩] -- … and NOT reported
 
 end Mjw.Alloc
